@@ -1,6 +1,8 @@
 package smgp30
 
 import (
+	"strings"
+
 	sms "github.com/hujm2023/go-sms-protocol"
 	"github.com/hujm2023/go-sms-protocol/packet"
 	"github.com/hujm2023/go-sms-protocol/smgp"
@@ -35,7 +37,7 @@ func (p *Login) IDecode(data []byte) error {
 
 	p.Header = smgp.ReadHeader(buf)
 	p.ClientID = buf.ReadCStringN(8)
-	p.AuthenticatorClient = buf.ReadCStringN(16)
+	p.AuthenticatorClient = buf.ReadCStringNWithoutTrim(16)
 	p.LoginMode = buf.ReadUint8()
 	p.Timestamp = buf.ReadUint32()
 	p.Version = buf.ReadUint8()
@@ -112,7 +114,7 @@ func (c *LoginResp) IDecode(data []byte) error {
 
 	c.Header = smgp.ReadHeader(buf)
 	c.Status = buf.ReadUint32()
-	c.AuthenticatorServer = buf.ReadCStringN(16)
+	c.AuthenticatorServer = strings.TrimRight(buf.ReadCStringNWithoutTrim(16), "\x00")
 	c.ServerVersion = buf.ReadUint8()
 	return buf.Error()
 }
